@@ -620,23 +620,27 @@ Definition apply_update_key (spec : value) (update : list (string * value)) (was
       else if first then
         (* replacement *)
         if existsb (fun kv => starts_dollar (fst kv)) update then Err EValue else
-        let id := match spec with
-                  | VDoc sfs => match assoc "_id" sfs with
-                                | Some i => Some i
-                                | None => match doc with VDoc dfs => assoc "_id" dfs | _ => None end
+        (* the _id of the document being replaced (for an upsert: of the seed built from the
+           filter, operator conditions discarded); the filter itself is not consulted *)
+        let id := match doc with
+                  | VDoc dfs => match assoc "_id" dfs with
+                                | Some i => if is_null i then None else Some i
+                                | None => None
                                 end
                   | _ => None
                   end in
         let base := match id with
-                    | Some i => if is_null i then [] else [("_id", i)]
+                    | Some i => [("_id", i)]
                     | None => []
                     end in
         let merged := fold_left (fun acc kv => set_key (fst kv) (snd kv) acc) update base in
-        match assoc "_id" merged, id with
-        | Some now_id, Some i =>
-            if py_eq now_id i then Ok (VDoc merged, true) else Err EOpFail
-        | Some now_id, None => Err EOpFail
-        | None, _ => Err EKey       (* existing_document['_id'] on a document without _id *)
+        match id with
+        | Some i =>
+            match assoc "_id" merged with
+            | Some now_id => if py_eq now_id i then Ok (VDoc merged, true) else Err EOpFail
+            | None => Err EKey
+            end
+        | None => Ok (VDoc merged, true)
         end
       else Err EValue
   end.
@@ -658,13 +662,7 @@ Definition apply_update (spec update : value) (was_insert : bool) (now : Z) (doc
   match update with
   | VDoc [] =>
       (* `if not document:` empty update: keep only the _id (when not None) *)
-      let id := match spec with
-                | VDoc sfs => match assoc "_id" sfs with
-                              | Some i => Some i
-                              | None => match doc with VDoc dfs => assoc "_id" dfs | _ => None end
-                              end
-                | _ => None
-                end in
+      let id := match doc with VDoc dfs => assoc "_id" dfs | _ => None end in
       Ok (VDoc (match id with Some i => if is_null i then [] else [("_id", i)] | None => [] end))
   | VDoc ufs => apply_update_keys spec ufs was_insert now true ufs doc
   | _ => Err EType
